@@ -23,6 +23,7 @@ import (
 	"go/parser"
 	"go/token"
 	"os"
+	"os/exec"
 	"path/filepath"
 	"sort"
 	"strconv"
@@ -87,6 +88,8 @@ type ctx struct {
 	evals   int
 	seq     int
 	errSeen map[string]int
+	sigList []string
+	sigSeen map[string]bool
 }
 
 // atoms of each type in a row context (table t) and in a function-body context (parameters)
@@ -230,6 +233,17 @@ func (c *ctx) selectStmt() (string, string) {
 	return "SELECT " + strings.Join(cols, ", ") + " FROM t WHERE id <= 3 UNION ALL SELECT " + strings.Join(cols, ", ") + " FROM t WHERE id > 237", "union"
 }
 
+func (c *ctx) nt(sg string) {
+	if c.sigSeen == nil {
+		c.sigSeen = map[string]bool{}
+	}
+	if !c.sigSeen[sg] {
+		c.sigSeen[sg] = true
+		c.sigList = append(c.sigList, sg)
+	}
+	c.o.NonTrivial(sg)
+}
+
 func canon(out string, err error) string {
 	if err != nil {
 		return "ERROR: " + strings.SplitN(err.Error(), "\n", 2)[0]
@@ -303,7 +317,110 @@ func (c *ctx) noise() string {
 	return b.String()
 }
 
-func runC14(seed int64, n int, dir string, _ []string) {
+// corpus: statements evaluated first in every run (pre-findings and their neighbours)
+var corpus = []string{
+	"SELECT id, COUNT(*) OVER () FROM t ORDER BY id",
+	"SELECT id, COUNT(*) OVER (PARTITION BY grp) FROM t ORDER BY id",
+	"SELECT id, COUNT(n) OVER (), SUM(n) OVER (PARTITION BY grp ORDER BY id) FROM t ORDER BY id",
+	"SELECT grp, COUNT(*), COUNT(DISTINCT s) FROM t GROUP BY grp ORDER BY grp",
+	"SELECT id, s || n, UPPER(s), n + f, -n, DATETIME(d) FROM t WHERE s IN ('alpha', 'Beta') OR n BETWEEN -5 AND 5 ORDER BY id",
+	"SELECT id, CASE WHEN n > 0 THEN 'p' ELSE s END, COALESCE(NULLIF(z, ''), s2), IF(f > 0, f, n) FROM t ORDER BY id",
+}
+
+const chunkSize = 60
+
+func runC14(seed int64, n int, dir string, args []string) {
+	if os.Getenv("C14_CHILD") == "1" {
+		runChild(seed, n, dir, os.Getenv("C14_CORPUS") == "1")
+		return
+	}
+	// Parent: the workload runs in child processes, one per chunk of iterations, because a panic in one of
+	// csvq's worker goroutines cannot be recovered in-process (it would take the whole stream down).
+	o := hc.NewOut(dir)
+	evals, crashes, chunks := 0, 0, 0
+	for start, k := 0, 0; start < n; start, k = start+chunkSize, k+1 {
+		cn := chunkSize
+		if n-start < cn {
+			cn = n - start
+		}
+		cdir := filepath.Join(dir, fmt.Sprintf("chunk-%d", k))
+		cmd := exec.Command(os.Args[0], "-seed", strconv.FormatInt(seed*100003+int64(k), 10), "-n", strconv.Itoa(cn), "-out", cdir)
+		cmd.Env = append(os.Environ(), "C14_CHILD=1")
+		if k == 0 {
+			cmd.Env = append(cmd.Env, "C14_CORPUS=1")
+		}
+		var stderr strings.Builder
+		cmd.Stderr = &stderr
+		chunks++
+		if err := cmd.Run(); err != nil {
+			crashes++
+			msg := strings.SplitN(strings.TrimSpace(stderr.String()), "\n", 2)[0]
+			o.Count("child_crash:" + msg)
+			where := ""
+			for _, l := range strings.Split(stderr.String(), "\n") {
+				if strings.Contains(l, "lib/query.") && where == "" && !strings.Contains(l, "panic") {
+					where = strings.TrimSpace(l)
+				}
+			}
+			if len(o.Samples) < 10 {
+				o.Samples = append(o.Samples, fmt.Sprintf("CRASH of the workload process (csvq panicked in a goroutine; chunk %d, child seed %d): %s at %s", k, seed*100003+int64(k), msg, where))
+			}
+			continue
+		}
+		if b, err := os.ReadFile(filepath.Join(cdir, "laws.txt")); err == nil {
+			for _, line := range strings.Split(string(b), "\n") {
+				var rec struct {
+					Law  string      `json:"law"`
+					Case interface{} `json:"case"`
+				}
+				if line != "" && json.Unmarshal([]byte(line), &rec) == nil {
+					o.Law(rec.Law, rec.Case)
+					o.Stats["law_fail:"+rec.Law]-- // counted again below from the child's stats
+				}
+			}
+		}
+		var st struct {
+			Evaluations int            `json:"evaluations"`
+			Stats       map[string]int `json:"stats"`
+			Samples     []string       `json:"samples"`
+		}
+		if b, err := os.ReadFile(filepath.Join(cdir, "stats.json")); err == nil && json.Unmarshal(b, &st) == nil {
+			evals += st.Evaluations
+			for key, v := range st.Stats {
+				if strings.HasPrefix(key, "functions_") {
+					o.Stats[key] = v
+				} else {
+					o.Stats[key] += v
+				}
+			}
+			if len(o.Samples) < 8 {
+				o.Samples = append(o.Samples, st.Samples...)
+			}
+		}
+		var sigs []string
+		if b, err := os.ReadFile(filepath.Join(cdir, "sigs.json")); err == nil && json.Unmarshal(b, &sigs) == nil {
+			for _, sg := range sigs {
+				o.NonTrivial(sg)
+			}
+		}
+	}
+	o.Stats["chunks"] = chunks
+	o.Stats["child_crashes"] = crashes
+	o.Close()
+	p := filepath.Join(dir, "stats.json")
+	var st map[string]interface{}
+	if b, err := os.ReadFile(p); err == nil && json.Unmarshal(b, &st) == nil {
+		st["evaluations"] = evals
+		nb, _ := json.MarshalIndent(st, "", " ")
+		_ = os.WriteFile(p, nb, 0o644)
+	}
+	if crashes*4 > chunks && crashes > 1 {
+		fmt.Fprintf(os.Stderr, "c14: %d of %d workload processes crashed — the cross-check is not usable\n", crashes, chunks)
+		os.Exit(4)
+	}
+}
+
+func runChild(seed int64, n int, dir string, withCorpus bool) {
 	g := hc.NewGen(seed)
 	o := hc.NewOut(dir)
 	repoSrc := os.Getenv("VERIF_REPO")
@@ -321,6 +438,8 @@ func runC14(seed int64, n int, dir string, _ []string) {
 	defer os.RemoveAll(repo)
 	c := &ctx{g: g, o: o}
 	defer func() {
+		sb, _ := json.Marshal(c.sigList)
+		_ = os.WriteFile(filepath.Join(dir, "sigs.json"), sb, 0o644)
 		o.Close()
 		p := filepath.Join(dir, "stats.json")
 		var st map[string]interface{}
@@ -416,6 +535,34 @@ func runC14(seed int64, n int, dir string, _ []string) {
 		panic(err)
 	}
 
+	if withCorpus {
+		for ci, q := range corpus {
+			o.Count("kind:corpus")
+			r1, e1 := c.execChecked(q+";", "plain")
+			r2, e2 := c.execChecked(q+";", "plain")
+			if canon(r1, e1) != canon(r2, e2) {
+				o.Law("repeat_eval:plain", map[string]string{"sql": q, "first": canon(r1, e1), "second": canon(r2, e2)})
+			}
+			pq := strings.Replace(q, " FROM t", ", ? FROM t", 1)
+			name := fmt.Sprintf("cps%d", ci)
+			if _, e := c.execChecked(fmt.Sprintf("PREPARE %s FROM '%s';", name, strings.ReplaceAll(pq, "'", "''")), "prepared"); e == nil {
+				ex := fmt.Sprintf("EXECUTE %s USING 1;", name)
+				p1, pe1 := c.execChecked(ex, "prepared")
+				p2, pe2 := c.execChecked(ex, "prepared")
+				if canon(p1, pe1) != canon(p2, pe2) {
+					o.Law("repeat_eval:prepared", map[string]string{"prepare": pq, "execute": ex, "first": canon(p1, pe1), "second": canon(p2, pe2)})
+				}
+			}
+			v := fmt.Sprintf("@cw%d", ci)
+			wsql := fmt.Sprintf("DECLARE %s := 0; WHILE %s < 2 DO %s; PRINT '#SEP#'; %s := %s + 1; END WHILE;", v, v, q, v, v)
+			out, e := c.execChecked(wsql, "while")
+			parts := strings.Split(out, "'#SEP#'\n")
+			if e == nil && (len(parts) != 3 || parts[0] != parts[1]) {
+				o.Law("repeat_eval:while", map[string]string{"sql": wsql, "output": out})
+			}
+			c.nt(fmt.Sprintf("corpus/%d/%v", ci, e1 != nil))
+		}
+	}
 	for it := 0; it < n; it++ {
 		c.seq++
 		kind := []string{"plain", "plain", "while", "udf", "prepared", "reread_table", "reread_cursor", "reread_variable"}[it%8]
@@ -428,7 +575,7 @@ func runC14(seed int64, n int, dir string, _ []string) {
 			if canon(r1, e1) != canon(r2, e2) {
 				o.Law("repeat_eval:plain", map[string]string{"sql": q, "first": canon(r1, e1), "second": canon(r2, e2)})
 			}
-			o.NonTrivial(fmt.Sprintf("plain/%s/%v/%d", form, e1 != nil, len(r1)%97))
+			c.nt(fmt.Sprintf("plain/%s/%v/%d", form, e1 != nil, len(r1)%97))
 			if len(o.Samples) < 4 {
 				o.Samples = append(o.Samples, q)
 			}
@@ -441,7 +588,7 @@ func runC14(seed int64, n int, dir string, _ []string) {
 			if e == nil && (len(parts) != 3 || parts[0] != parts[1]) {
 				o.Law("repeat_eval:while", map[string]string{"sql": sql, "output": out})
 			}
-			o.NonTrivial(fmt.Sprintf("while/%s/%v/%d", form, e != nil, len(out)%97))
+			c.nt(fmt.Sprintf("while/%s/%v/%d", form, e != nil, len(out)%97))
 		case "udf":
 			body := c.expr(c.pickType(), parAtoms, 2+c.g.Intn(2))
 			fn := fmt.Sprintf("uf%d", c.seq)
@@ -456,7 +603,7 @@ func runC14(seed int64, n int, dir string, _ []string) {
 			if canon(r1, e1) != canon(r2, e2) {
 				o.Law("repeat_eval:udf", map[string]string{"declare": decl, "sql": q, "first": canon(r1, e1), "second": canon(r2, e2)})
 			}
-			o.NonTrivial(fmt.Sprintf("udf/%v/%d", e1 != nil, len(r1)%97))
+			c.nt(fmt.Sprintf("udf/%v/%d", e1 != nil, len(r1)%97))
 			if len(o.Samples) < 6 {
 				o.Samples = append(o.Samples, decl)
 			}
@@ -477,14 +624,14 @@ func runC14(seed int64, n int, dir string, _ []string) {
 			if canon(r1, e1) != canon(r2, e2) {
 				o.Law("repeat_eval:prepared", map[string]string{"prepare": q, "execute": ex, "first": canon(r1, e1), "second": canon(r2, e2)})
 			}
-			o.NonTrivial(fmt.Sprintf("prepared/%s/%v/%d", form, e1 != nil, len(r1)%97))
+			c.nt(fmt.Sprintf("prepared/%s/%v/%d", form, e1 != nil, len(r1)%97))
 		case "reread_table":
 			_, _ = c.execChecked(c.noise(), kind)
 			again, e := c.execChecked("SELECT * FROM t ORDER BY id; SELECT * FROM t2;", kind)
 			if e != nil || again != baseline {
 				o.Law("reread:table", map[string]string{"second": canon(again, e)})
 			}
-			o.NonTrivial("reread_table")
+			c.nt("reread_table")
 		case "reread_cursor":
 			cur := fmt.Sprintf("cur%d", c.seq)
 			q := "SELECT id, " + c.expr('S', rowAtoms, 2) + ", " + c.expr(c.pickType(), rowAtoms, 2) + " FROM t ORDER BY id"
@@ -504,7 +651,7 @@ func runC14(seed int64, n int, dir string, _ []string) {
 				o.Law("reread:cursor", map[string]string{"cursor": q, "fetch": fetch, "first": canon(r1, e1), "second": canon(r2, e2)})
 			}
 			_, _ = pr.Exec(fmt.Sprintf("CLOSE %s; DISPOSE CURSOR %s;", cur, cur))
-			o.NonTrivial(fmt.Sprintf("reread_cursor/%v/%d", e1 != nil, len(r1)%97))
+			c.nt(fmt.Sprintf("reread_cursor/%v/%d", e1 != nil, len(r1)%97))
 		case "reread_variable":
 			v := fmt.Sprintf("@rv%d", c.seq)
 			init := c.g.Pick("(SELECT MAX("+c.expr('S', rowAtoms, 1)+") FROM t)", "(SELECT "+c.expr(c.pickType(), rowAtoms, 2)+" FROM t WHERE id = 17)", c.expr(c.pickType(), parAtoms, 0))
@@ -521,7 +668,7 @@ func runC14(seed int64, n int, dir string, _ []string) {
 			if canon(r1, e1) != canon(r2, e2) {
 				o.Law("reread:variable", map[string]string{"init": init, "first": canon(r1, e1), "second": canon(r2, e2)})
 			}
-			o.NonTrivial(fmt.Sprintf("reread_variable/%d", len(r1)%97))
+			c.nt(fmt.Sprintf("reread_variable/%d", len(r1)%97))
 		}
 	}
 	if os.Getenv("C14_DEBUG") != "" {
